@@ -192,6 +192,55 @@ fn mutate(rng: &mut Rng, b: &[u8], other: &[u8]) -> (Vec<u8>, String) {
     (v, what.to_string())
 }
 
+
+/// parse a plaintext block stream (as far as it goes) into (start, end) byte ranges of blocks
+fn block_ranges(inner: &[u8]) -> Vec<(usize, usize, u8)> {
+    let mut v = vec![];
+    let mut o = 0usize;
+    while o < inner.len() {
+        let t = inner[o];
+        let end = match t {
+            0x00 => { if o + 17 > inner.len() { break; } let l = u64::from_le_bytes(inner[o + 9..o + 17].try_into().unwrap()) as usize; o + 17 + l }
+            0x01 => { if o + 17 > inner.len() { break; } let l = u64::from_le_bytes(inner[o + 9..o + 17].try_into().unwrap()) as usize; o + 17 + l }
+            0xFF => o + 41,
+            0xFE => { v.push((o, o + 1, t)); break; }
+            _ => break,
+        };
+        if end > inner.len() { break; }
+        v.push((o, end, t));
+        o = end;
+    }
+    v
+}
+
+/// structural mutation at block level: swap / duplicate / delete / move blocks, retarget ids,
+/// damage a stored hash — the footer is kept as it is (its offsets then point at other blocks)
+fn mutate_blocks(rng: &mut Rng, inner: &[u8]) -> (Vec<u8>, String) {
+    let br = block_ranges(inner);
+    if br.len() < 3 { return (inner.to_vec(), "blocks:none".into()); }
+    let nb = br.len() - 1; // keep the end marker in place
+    let tail = inner[br[nb].0..].to_vec();
+    let mut blocks: Vec<Vec<u8>> = br[..nb].iter().map(|(a, b, _)| inner[*a..*b].to_vec()).collect();
+    let i = rng.below(blocks.len() as u64) as usize;
+    let j = rng.below(blocks.len() as u64) as usize;
+    let what = match rng.below(7) {
+        0 => { blocks.swap(i, j); "blocks:swap" }
+        1 => { if i + 1 < blocks.len() { blocks.swap(i, i + 1); } "blocks:swap-adjacent" }
+        2 => { let b = blocks[i].clone(); blocks.insert(j, b); "blocks:duplicate" }
+        3 => { blocks.remove(i); "blocks:delete" }
+        4 => { let b = blocks.remove(i); let k = rng.below(blocks.len() as u64 + 1) as usize; blocks.insert(k, b); "blocks:move" }
+        5 => { let id = u64::from_le_bytes(blocks[j][1..9].try_into().unwrap()); blocks[i][1..9].copy_from_slice(&id.to_le_bytes()); "blocks:retarget-id" }
+        _ => { // move an end-of-file block before the file's last content block / damage its hash
+            if let Some(e) = (0..blocks.len()).rev().find(|k| blocks[*k][0] == 0xFF) {
+                if rng.chance(1, 2) && e > 0 { blocks.swap(e, e - 1); "blocks:eof-earlier" } else { blocks[e][12] ^= 0x40; "blocks:eof-hash" }
+            } else { "blocks:none" }
+        }
+    };
+    let mut v: Vec<u8> = blocks.concat();
+    v.extend_from_slice(&tail);
+    (v, what.to_string())
+}
+
 /// D10-style: footer with many offsets pointing at a foreign block
 fn many_offsets_case() -> Vec<u8> {
     let mut b = b"MLA\x01\x00\x00\x00\x00\x00".to_vec();
@@ -313,7 +362,10 @@ pub fn run(ctx: &Ctx) -> Report {
                     let k = rng.range(1, 3);
                     let mut v = inner.to_vec();
                     let mut what = vec![];
-                    for _ in 0..k { let (nv, w) = mutate(&mut rng, &v, &other); v = nv; what.push(w); }
+                    for _ in 0..k {
+                        let (nv, w) = if rng.chance(1, 2) { mutate_blocks(&mut rng, &v) } else { mutate(&mut rng, &v, &other) };
+                        v = nv; what.push(w);
+                    }
                     let layers = (rng.below(4)) as u8;
                     let mut body = v;
                     if layers & L_COMP != 0 { body = real_compress(&body, &[]); }
